@@ -233,6 +233,77 @@ theorem failed_setup_retried (d : Dump) (x : Xlat) (o : OsInit) (hf : (revalidat
   · rw [if_pos hd]; cases o <;> simp [vtopInit]
   · rw [if_neg hd]; simp
 
+/-! ## Re-open histories: one context, one dump after the other
+
+`openCtx` is `kdump_open_fd` (or setting `file.fd`) on a context in ANY state `c` — in
+particular one that had dumps of either kind open before.  The theorems say that nothing of
+`c` reaches the views: the private data (both frame maps and the translation mode that
+`xc_get_page` / `xc_post_addrxlat` read) is that of `mkDump` on the last file, to which the
+theorems above apply, and once the translation has been set up again the whole state equals
+that of a context that was created for this file. -/
+
+/-- the private data after an open is that of the last dump alone -/
+theorem reopen_last_dump_only (okP okM : Nat → Bool) (jP jM : Nat) (c : Ctx) (s : Spec) :
+    (openCtx okP okM jP jM c s).map (·.file) =
+      (mkDump okP okM jP jM s.p2m s.be s.shift s.mapOff s.pagesOff s.tbl).map some := by
+  unfold openCtx openCommon closeFormat setXenXlat mkDump
+  cases hp : s.p2m
+  · cases build okP jP (pfns s.be s.tbl) <;> simp
+  · cases build okP jP (pfns s.be s.tbl) <;> simp
+    cases build okM jM (mfns s.be s.tbl) <;> simp
+
+/-- the stored translation mode after an open is the one the last file's section asks for -/
+theorem reopen_mode_of_last (okP okM : Nat → Bool) (jP jM : Nat) (c c' : Ctx) (s : Spec)
+    (h : openCtx okP okM jP jM c s = some c') :
+    c'.xenXlat = s.p2m ∧ ∃ d, c'.file = some d ∧ d.nonauto = s.p2m ∧ c'.x.dirty = true := by
+  revert h
+  unfold openCtx openCommon closeFormat setXenXlat setOpt
+  cases hp : s.p2m
+  · cases build okP jP (pfns s.be s.tbl) <;> simp
+    intro h; subst h; simp
+  · cases build okP jP (pfns s.be s.tbl) <;> simp
+    cases build okM jM (mfns s.be s.tbl) <;> simp
+    intro h; subst h; simp
+
+/-- after the translation has been set up again the state is that of a fresh context -/
+theorem reopen_views_last_only (okP okM : Nat → Bool) (jP jM : Nat) (c c₁ c₂ : Ctx) (s : Spec)
+    (h₁ : openCtx okP okM jP jM c s = some c₁) (h₂ : openCtx okP okM jP jM {} s = some c₂) :
+    fetchXlat .ok c₁ = fetchXlat .ok c₂ := by
+  have f₁ := reopen_last_dump_only okP okM jP jM c s
+  have f₂ := reopen_last_dump_only okP okM jP jM {} s
+  rw [h₁] at f₁; rw [h₂, ← f₁] at f₂
+  simp only [Option.map_some, Option.some.injEq] at f₂
+  obtain ⟨m₁, d₁, hd₁, -, hx₁⟩ := reopen_mode_of_last okP okM jP jM c c₁ s h₁
+  obtain ⟨m₂, d₂, hd₂, -, hx₂⟩ := reopen_mode_of_last okP okM jP jM {} c₂ s h₂
+  have hd : d₁ = d₂ := by rw [hd₁, hd₂] at f₂; exact (Option.some.inj f₂).symm
+  subst hd
+  obtain ⟨a₁, b₁, x₁⟩ := c₁
+  obtain ⟨a₂, b₂, x₂⟩ := c₂
+  simp only at m₁ m₂ hd₁ hd₂ hx₁ hx₂
+  subst m₁ m₂ hd₁ hd₂
+  simp [fetchXlat, revalidate, hx₁, hx₂, vtopInit]
+
+/-- a whole history of opens (dumps of either kind, in any order) leaves the views of the last one -/
+theorem history_last_only (okP okM : Nat → Bool) (jP jM : Nat) (ss : List Spec) (c c₁ c₂ : Ctx) (s : Spec)
+    (h₁ : openAll okP okM jP jM c (ss ++ [s]) = some c₁) (h₂ : openAll okP okM jP jM {} [s] = some c₂) :
+    fetchXlat .ok c₁ = fetchXlat .ok c₂ := by
+  induction ss generalizing c with
+  | nil =>
+    simp only [List.nil_append, openAll] at h₁ h₂
+    cases e₁ : openCtx okP okM jP jM c s with
+    | none => simp [e₁] at h₁
+    | some a =>
+      cases e₂ : openCtx okP okM jP jM {} s with
+      | none => simp [e₂] at h₂
+      | some b =>
+        simp [e₁] at h₁; simp [e₂] at h₂; subst h₁ h₂
+        exact reopen_views_last_only okP okM jP jM c a b s e₁ e₂
+  | cons t ts ih =>
+    simp only [List.cons_append, openAll] at h₁
+    cases e : openCtx okP okM jP jM c t with
+    | none => simp [e] at h₁
+    | some a => simp [e] at h₁; exact ih a h₁
+
 /-! ## Non-vacuity: the hypotheses are met by concrete, non-trivial states -/
 
 /-- a mixed list: ascending run, isolated frame, descending run, frames at both
@@ -260,5 +331,17 @@ example : exDump.map (fun d => xRun d {} [.fetch .ok, .setOpt, .setOpt, .fetch .
     = some ⟨false, true⟩ := by decide
 example : exDump.map (fun d => (revalidate d .failWiped (xRun d {} [.fetch .ok, .setOpt])).2) = some ⟨true, false⟩ := by decide
 example : exDump.map (fun d => convP2m d (xRun d {} [.fetch .ok, .setOpt, .fetch .ok]) 0x10123) = some (some (.ok 0x5000123)) := by decide
+
+-- re-open histories: a PV dump, then an HVM dump with the same guest frames on the same context:
+-- the machine view is the guest view again, no stale machine-frame map, no xc_core methods
+def exPfnSpec : Spec := ⟨false, false, 12, 0x1000, 0x2000, exTbl.map fun e => ⟨e.pfn, 0⟩⟩
+def exP2mSpec : Spec := ⟨true, false, 12, 0x1000, 0x2000, exTbl⟩
+def exOpen : Ctx → Spec → Option Ctx := openCtx (fun _ => true) (fun _ => true) 0 0
+example : ((exOpen {} exP2mSpec).bind (exOpen · exPfnSpec)).map (fun c => (c.xenXlat, c.file.map fun d => (getPage d .machphys 0x10123, getPage d .machphys 0x5000123)))
+    = some (false, some (.ok 0x4000, .error .nodata)) := by decide
+example : ((exOpen {} exPfnSpec).bind (exOpen · exP2mSpec)).map (fun c => (c.xenXlat, c.file.map fun d => (getPage d .machphys 0x10123, getPage d .machphys 0x5000123)))
+    = some (true, some (.error .nodata, .ok 0x4000)) := by decide
+example : (((exOpen {} exP2mSpec).map (fun c => (fetchXlat .ok c).2)).bind (exOpen · exPfnSpec)).map (fun c => ((fetchXlat .ok c).2.x, c.x))
+    = some (⟨false, false⟩, ⟨true, true⟩) := by decide
 
 end Kdf.Props.C19
